@@ -649,6 +649,18 @@ class Engine:
                 v = self.run_const_item(item)
             self._const_cache[key] = v
             return v
+        # associated constants of the primitive integer types
+        mnum = re.match(r"^core::num::<impl (u8|u16|u32|u64|u128|usize|i8|i16|i32|i64|i128|isize)>::(MAX|MIN|BITS)$", t.strip())
+        if mnum:
+            w, sg = INT_TYPES[mnum.group(1)]
+            if mnum.group(2) == "BITS":
+                v = z3.BitVecVal(w, 32)
+            elif mnum.group(2) == "MAX":
+                v = z3.BitVecVal((1 << (w - 1)) - 1 if sg else (1 << w) - 1, w)
+            else:
+                v = z3.BitVecVal(1 << (w - 1) if sg else 0, w)
+            self._const_cache[key] = v
+            return v
         # function item
         return FnV(t)
 
@@ -1590,7 +1602,55 @@ def m_struct_eq(engine, st, fr, callee, args, ops):
     return z3.simplify(z3.Not(r) if callee.endswith("::ne") else r)
 
 
+_ARITH_RE = r"^<&?(u8|u16|u32|u64|u128|usize|i8|i16|i32|i64|i128|isize) as (std::ops::)?(Add|Sub|Mul|Shl|Shr|BitAnd|BitOr|BitXor)(<&?\w+>)?>::(add|sub|mul|shl|shr|bitand|bitor|bitxor)$"
+
+
+def m_arith_forward(engine, st, fr, callee, args, ops):
+    """`a op &b`, `&a op b`, ...: core's reference-forwarding operator impls (`#[rustc_inherit_overflow_checks]`): the primitive
+    operation with the overflow / shift-range panic of the calling crate's setting (overflow checks are on in the MIR we read)."""
+    m = re.match(_ARITH_RE, callee)
+    ty, meth = m.group(1), m.group(5)
+    a, b = args
+    while isinstance(a, Ref):
+        a = _deref_arg(engine, st, a)
+    while isinstance(b, Ref):
+        b = _deref_arg(engine, st, b)
+    if not (z3.is_bv(a) and z3.is_bv(b)):
+        raise Unsupported("%s on %r, %r" % (callee, a, b))
+    if meth in ("add", "sub", "mul"):
+        t = engine.binop({"add": "AddWithOverflow", "sub": "SubWithOverflow", "mul": "MulWithOverflow"}[meth], a, b, ty)
+        r, ovf = t.fields
+        return Fork([(z3.simplify(z3.Not(ovf)), r), (ovf, Panic(("attempt to %s with overflow" % {"add": "add", "sub": "subtract", "mul": "multiply"}[meth], fr.fn.name, fr.bb)))])
+    if meth in ("shl", "shr"):
+        w = a.size()
+        bb = z3.ZeroExt(w - b.size(), b) if b.size() < w else (z3.Extract(w - 1, 0, b) if b.size() > w else b)
+        inrange = z3.ULT(b, z3.BitVecVal(w, b.size()))
+        r = engine.binop("Shl" if meth == "shl" else "Shr", a, bb, ty)
+        return Fork([(z3.simplify(inrange), r), (z3.simplify(z3.Not(inrange)), Panic(("attempt to shift with overflow", fr.fn.name, fr.bb)))])
+    return engine.binop({"bitand": "BitAnd", "bitor": "BitOr", "bitxor": "BitXor"}[meth], a, b, ty)
+
+
+_INT_FROM_RE = r"^<(u8|u16|u32|u64|u128|usize|i16|i32|i64|i128|isize) as (std::convert::)?From<(u8|u16|u32|u64|i8|i16|i32|i64|bool)>>::from$"
+
+
+def m_int_from(engine, st, fr, callee, args, ops):
+    """Lossless integer widening `uN::from(x)` / `iN::from(x)` (core's From impls exist only for lossless pairs)."""
+    m = re.match(_INT_FROM_RE, callee)
+    dst, src = m.group(1), m.group(3)
+    a = args[0]
+    w = INT_TYPES[dst][0]
+    if src == "bool":
+        return z3.If(a, z3.BitVecVal(1, w), z3.BitVecVal(0, w))
+    if not z3.is_bv(a):
+        raise Unsupported("%s of %r" % (callee, a))
+    if a.size() == w:
+        return a
+    return z3.simplify(z3.SignExt(w - a.size(), a) if INT_TYPES[src][1] else z3.ZeroExt(w - a.size(), a))
+
+
 BUILTIN_MODELS = [
+    (_INT_FROM_RE, m_int_from),
+    (_ARITH_RE, m_arith_forward),
     (r"^<Vec<.*> as (std::ops::)?Index(Mut)?<usize>>::index(_mut)?$", m_vec_index),
     (r"^Vec::<.*>::len$", m_vec_len),
     (r"^Vec::<.*>::is_empty$", m_vec_is_empty),
